@@ -14,6 +14,8 @@ CONSTANTS
   ACSTAMPCHECK = TRUE
   TRAVOFF = 0
   RETAINCHECK = FALSE
+  TT = 100
+  MTC = 100
 INVARIANTS RetainOK Linearizable NoDeadlock ResizeSafe QuiescentOK ReadersNeverBlock IterWeak GhostOK
 PROPERTY NeverShrinks
 VIEW view
